@@ -357,7 +357,8 @@ func DeadlockWatch(prop, test string, c any, needle string) (stop func()) {
 				continue
 			}
 			hdr := g[:nl]
-			if (strings.Contains(hdr, "Mutex") || strings.Contains(hdr, "semacquire")) && strings.Contains(g, needle) {
+			// waiting for a lock, or running / runnable all along (a busy loop): neither is durably blocked
+			if (strings.Contains(hdr, "Mutex") || strings.Contains(hdr, "semacquire") || strings.Contains(hdr, "[running") || strings.Contains(hdr, "[runnable")) && strings.Contains(g, needle) && !strings.Contains(g, "evid.DeadlockWatch") {
 				out[strings.Fields(hdr)[1]] = g
 			}
 		}
@@ -377,9 +378,13 @@ func DeadlockWatch(prop, test string, c any, needle string) (stop func()) {
 		}
 		for id, g := range blocked() {
 			if _, both := first[id]; both {
-				err := fmt.Errorf("the case is still running after 25 s of real time and goroutine %s has been waiting for a lock all along:\n%s", id, g)
-				p := SaveReplay(prop, test, "deadlock-on-lock", err, c)
-				fmt.Printf("VERIF-FAIL property=%s test=%s sig=%s replay=%s: %v\n", prop, test, "deadlock-on-lock", p, err)
+				sig, what := "deadlock-on-lock", "waiting for a lock"
+				if strings.Contains(g[:strings.IndexByte(g, '\n')], "runn") {
+					sig, what = "busy-loop", "running (a loop that never blocks)"
+				}
+				err := fmt.Errorf("the case is still running after 25 s of real time and goroutine %s has been %s all along:\n%s", id, what, g)
+				p := SaveReplay(prop, test, sig, err, c)
+				fmt.Printf("VERIF-FAIL property=%s test=%s sig=%s replay=%s: %v\n", prop, test, sig, p, err)
 				os.Exit(1)
 			}
 		}
